@@ -21,6 +21,7 @@ the derivation (parse(s).*_used, evaluator(s, ...)[1], get_used_vars, DependentS
 import itertools
 import math
 import os
+import sys
 import multiprocessing
 import random
 import re
@@ -255,7 +256,7 @@ def scope_content(scope):
 
 def do_call(call, handed, scope=None):
     """call = (kind, s, max_dim[, content]).  Returns (obs for Coq, outcome for the fresh-vs-shared oracle).
-    kind 'evalC' evaluates in the scope given by its content (names of the three dicts): in the dict objects `scope` that a
+    kind 'evalI' is evaluator(..., allow_inf=True);  kind 'evalC' evaluates in the scope given by its content (names of the three dicts): in the dict objects `scope` that a
     history reuses and edits in place, or -- for the fresh reference -- in new dicts of equal content."""
     I = impl()
     ex, PR = I['ex'], I['ParseResults']
@@ -281,7 +282,8 @@ def do_call(call, handed, scope=None):
         if st == 'exc':
             return exc_obs(r), exc_outcome(r)
         return ('other', 'timeout'), ('timeout',)
-    st, r = core.guarded(ex.evaluator, s, V, F, S, max_array_dim=md, seconds=PATIENCE[0])
+    allow_inf = kind == 'evalI'
+    st, r = core.guarded(ex.evaluator, s, V, F, S, max_array_dim=md, allow_inf=allow_inf, seconds=PATIENCE[0])
     if st == 'ret':
         try:
             v, meta = r
@@ -291,11 +293,14 @@ def do_call(call, handed, scope=None):
             return ('other', 'unusable result'), ('unusable', type(r).__name__, type(e).__name__)
         if isinstance(v, float) and math.isnan(v):
             o = ('nan', nm, dim)
-            return o, o
+            return (('ai', o) if allow_inf else o), o
         vo = val_obs(v)
+        if allow_inf:
+            # infinities were asked for: where the model overflows it has nothing to say about this call
+            return ('ai', ('inf', nm, dim) if vo is None else ('val', vo, nm, dim)), ('val', repr(v), nm, dim)
         return ('val', vo, nm, dim), ('val', repr(v), nm, dim)
     if st == 'exc':
-        return exc_obs(r), exc_outcome(r)
+        return (('ai', exc_obs(r)) if allow_inf else exc_obs(r)), exc_outcome(r)
     return ('other', 'timeout'), ('timeout',)
 
 
@@ -362,6 +367,8 @@ def run_sequence(calls):
             ('evalS', s, max_dim)                          evaluator with the three scope dict OBJECTS this history reuses
             ('edit', 'v'|'f'|'s', name)                    in-place edit of one of them (delete the name if present, else add)
             ('evalC', s, max_dim, content)                 evaluator with new dicts of the given content (the fresh reference)
+            ('evalI', s, max_dim)                          like 'eval' with allow_inf=True
+            ('newparser',)                                 a new MathParser is installed as the shared parser
             ('consumer', id, input)                        one of CONSUMERS; afterwards every string this history has seen so
                                                            far is parsed and evaluated again directly ("re-check")
     Returns per executed call (obs, outcome, state, effective call, index of the step that caused it) and a final stability
@@ -372,7 +379,7 @@ def run_sequence(calls):
     handed, out = [], []
     scope = (dict(VARS), dict(FUNCS), dict(SUFS))
     universe = (VARS_ALL, FUNCS_ALL, SUFS_ALL)
-    with_consumers = any(c[0] == 'consumer' for c in calls)
+    with_consumers = any(c[0] in ('consumer', 'newparser') for c in calls)
     seen = []
 
     def direct(eff, j, sc=None):
@@ -387,6 +394,11 @@ def run_sequence(calls):
         out.append((obs, outcome, state, eff, j))
 
     for j, call in enumerate(calls):
+        if call[0] == 'newparser':           # a brand-new MathParser takes over as the shared one, new scope dicts too
+            ex.PARSER = ex.MathParser()
+            scope = (dict(VARS), dict(FUNCS), dict(SUFS))
+            del seen[:]
+            continue
         if call[0] == 'edit':
             i = 'vfs'.index(call[1])
             if call[2] in scope[i]:
@@ -431,37 +443,41 @@ def run_sequence(calls):
 _FRESH = {}
 
 
-def fresh_outcome(call):
-    """the same call on a parser constructed for this call alone"""
-    if call not in _FRESH:
-        out, _ = run_sequence([call])
-        if out[0][1] == ('timeout',):
-            PATIENCE[0] = 300
-            try:
-                out, _ = run_sequence([call])
-            finally:
-                PATIENCE[0] = 20
-        _FRESH[call] = out[0][1]
-    return _FRESH[call]
+def purge(level):
+    """forget the library's modules so that the next use imports them anew: every module-level object of the library (the
+    shared PARSER, any memo next to it, class attributes ...) starts from scratch, as in a fresh interpreter.
+    'full' = mitxgraders* and voluptuous*;  'calc' = the calc package only (enough for direct parse / evaluator calls, and
+    6 times cheaper; never used in a process that also calls graders)."""
+    pref = ('mitxgraders', 'voluptuous') if level == 'full' else ('mitxgraders.helpers.calc',)
+    for k in [k for k in list(sys.modules) if k.startswith(pref)]:
+        del sys.modules[k]
+    _IMPL.clear()
 
 
-def _worker(seqs):
+def _worker(job):
+    level, seqs = job
     res = []
     for calls in seqs:
+        if level:
+            purge(level)
         out, changed = run_sequence(calls)
         res.append((out, changed))
     return res
 
 
-def run_many(seqs, nproc=core.NPROC, retry=True):
-    """run the sequences (lists of calls) in forked workers; result order = input order"""
-    if len(seqs) < 64:
-        return _worker(seqs)
-    chunk = max(8, len(seqs) // (nproc * 4))
-    parts = [seqs[i:i + chunk] for i in range(0, len(seqs), chunk)]
+def run_many(seqs, nproc=core.NPROC, level=None, force_pool=False):
+    """run the sequences (lists of calls) in forked workers; result order = input order.
+    level = 'full' | 'calc': every sequence starts after purge(level) (pristine library state); always in forked workers
+    then, so that the calling process keeps its modules."""
+    if not seqs:
+        return []
+    if len(seqs) < 64 and not level and not force_pool:
+        return _worker((None, seqs))
+    chunk = max(1 if level else 8, len(seqs) // (nproc * 4))
+    parts = [(level, seqs[i:i + chunk]) for i in range(0, len(seqs), chunk)]
     try:
         ctx = multiprocessing.get_context('fork')
-        with ctx.Pool(nproc) as pool:
+        with ctx.Pool(min(nproc, len(parts))) as pool:
             outs = pool.map(_worker, parts)
     except (OSError, ValueError):
         outs = [_worker(p) for p in parts]
@@ -472,12 +488,64 @@ def run_many(seqs, nproc=core.NPROC, retry=True):
         if any(o[1] == ('timeout',) for o in out):
             PATIENCE[0] = 300
             try:
+                if level:
+                    purge(level)
                 results[i] = run_sequence(seqs[i])
             finally:
                 PATIENCE[0] = 20
             if any(o[1] == ('timeout',) for o in results[i][0]):
                 results[i] = None
     return results
+
+
+def prefetch_fresh(calls, share=1.0):
+    """the reference outcome of every distinct call: the call alone on a new parser -- in pristine library state (purge) for
+    the given share of the calls (chosen by a hash of the call), in a worker that has only served such references for the rest;
+    a mismatch against either kind of reference is confirmed in pristine state before it is reported"""
+    todo = sorted(set(c for c in calls if c not in _FRESH), key=repr)
+    import zlib
+    pristine = [c for c in todo if share >= 1.0 or c[0] == 'consumer' or zlib.crc32(repr(c).encode()) % 1000 < share * 1000]
+    chosen = set(pristine)
+    plain = [c for c in todo if c not in chosen]
+    cons = [c for c in pristine if c[0] == 'consumer']
+    direct = [c for c in pristine if c[0] != 'consumer']
+    for group, level in ((cons, 'full'), (direct, 'calc'), (plain, None)):
+        for c, r in zip(group, run_many([[c] for c in group], level=level, force_pool=True)):
+            if r is not None and r[0]:
+                _FRESH[c] = r[0][0][1]
+            else:
+                _FRESH[c] = ('timeout',)
+
+
+def confirm_pristine(steps):
+    """re-run a history in pristine library state and compare each call with its pristine reference.
+    Returns (index of the step, effective call, got, want) of the first call that differs, or None."""
+    level = 'full' if any(c[0] == 'consumer' for c in steps) else 'calc'
+    r = run_many([list(steps)], level=level, force_pool=True)[0]
+    if r is None:
+        return None
+    out, _chg = r
+    refs = {}
+    for o in out:
+        if o[3] not in refs:
+            lv = 'full' if o[3][0] == 'consumer' else 'calc'
+            rr = run_many([[o[3]]], level=lv, force_pool=True)[0]
+            refs[o[3]] = rr[0][0][1] if rr is not None and rr[0] else ('timeout',)
+    for o in out:
+        want = refs[o[3]]
+        if ('timeout',) in (want, o[1]):
+            continue
+        if (o[1][:2] == ('exc', 'RecursionError')) != (want[:2] == ('exc', 'RecursionError')):
+            continue
+        if o[1] != want:
+            return (o[4], o[3], o[1], want)
+    return None
+
+
+def fresh_outcome(call):
+    if call not in _FRESH:
+        prefetch_fresh([call])
+    return _FRESH[call]
 
 
 def engine_unstable(out):
@@ -491,14 +559,10 @@ def engine_unstable(out):
     return False
 
 
-def drop_unobserved(seqs, results, stats):
+def drop_unobserved(seqs, results, stats, share=1.0):
     """drops the sequences that could not be observed and replaces every sequence by its effective calls"""
     keep = [i for i, r in enumerate(results) if r is not None]
-    todo = sorted(set(o[3] for i in keep for o in results[i][0] if o[3] not in _FRESH), key=repr)
-    if len(todo) > 64:          # each distinct call once on a parser constructed for it alone, in the worker pool
-        for c, r in zip(todo, run_many([[c] for c in todo], retry=False)):
-            if r is not None:
-                _FRESH[c] = r[0][0][1]
+    prefetch_fresh((o[3] for i in keep for o in results[i][0]), share)
     stable = [i for i in keep if not engine_unstable(results[i][0])]
     stats['sequences_near_the_recursion_limit_dropped'] = stats.get('sequences_near_the_recursion_limit_dropped', 0) + len(keep) - len(stable)
     keep = stable
@@ -533,7 +597,13 @@ ALPHABET = [
     'g(a_{1},1e1e)',    # tensor index name only inside arguments, suffix e after an exponent
     DEEP,               # balanced, but nested too deeply for the engine: RecursionError escapes, after a name and a suffix fired
 ]
-EXTRA_CALLS = [('parse', DEEP_FUN, None), ('eval', DEEP_ARR, None), ('eval', None, None), ('eval', '  \t ', None), ('eval', '[y,2e]', 0), ('eval', ' x + y ', 0),
+EXTRA_CALLS = [('parse', DEEP_FUN, None), ('eval', DEEP_ARR, None),
+               # the evaluator's other arguments are part of the call: allow_inf, max_array_dim, the scope
+               ('evalI', '1e400', None), ('eval', '1e400', None), ('evalI', '[1, 1e308*100]', None), ('eval', '[1, 1e308*100]', None),
+               ('evalI', '[1, 1e308*100]', 0), ('evalI', 'x+1e308*100', None), ('eval', 'x+1e308*100', None), ('evalI', 'x+y', None),
+               ('evalC', 'x+y', None, (('x',), (), ())), ('evalC', 'f(x)+2k*f', None, (('f', 'x'), (), ('k',))),
+               ('evalC', '[y,2e]', 1, (('y',), ('f',), ())),
+               ('eval', None, None), ('eval', '  \t ', None), ('eval', '[y,2e]', 0), ('eval', ' x + y ', 0),
                ('eval', 'x y', None), ('parse', 'x y', None)]
 
 
@@ -577,12 +647,14 @@ Inductive iview :=
 | IPErr (e : perr)
 | INan (nm : names) (dim : nat)
 | IVal (v : option val) (nm : names) (dim : nat)
+| IInf (nm : names) (dim : nat)                  (* an infinite value *)
+| IAllowInf (i : iview)                          (* the call had allow_inf=True *)
 | IDims
 | IErr (e : everr)
 | IOther.
 Inductive istate := IState (entries : list (str * names)) (scr : names) | IUnobservable | ISkip.
 (* 0 agree, 1 differ, 3 the model declines (value outside its arithmetic) *)
-Definition view_agree (v : view) (i : iview) : Z :=
+Definition view_agree0 (v : view) (i : iview) : Z :=
   match v, i with
   | VP (VTree t nm), ITree x nm' => if sexp_eqb (to_sexp t) x && names_same nm nm' then 0 else 1
   | VP (VErr e), IPErr e' => if perr_eqb e e' then 0 else 1
@@ -594,6 +666,12 @@ Definition view_agree (v : view) (i : iview) : Z :=
   | VE (EvErr e), IErr e' => if declines e then 3 else if everr_class e e' then 0 else 1
   | VE (EvErr e), _ => if declines e then 3 else 1
   | _, _ => 1
+  end.
+(* with allow_inf=True the implementation carries infinities on; the model's arithmetic stops at EOverflow: it declines *)
+Definition view_agree (v : view) (i : iview) : Z :=
+  match i with
+  | IAllowInf j => match v with VE (EvErr EOverflow) => 3 | _ => view_agree0 v j end
+  | _ => view_agree0 v i
   end.
 Fixpoint entries_agree (c : list (str * parsed)) (st : pstate) (l : list (str * names)) : bool :=
   match c, l with
@@ -639,7 +717,7 @@ def call_term(call):
     if kind == 'parse':
         return '(OParse %s)' % strl(s)
     lst = lambda xs: '[' + ';'.join(strl(x) for x in xs) + ']'      # noqa
-    envt = 'env0' if kind == 'eval' else '(env_sub %s %s %s)' % tuple(lst(x) for x in call[3])
+    envt = 'env0' if kind in ('eval', 'evalI') else '(env_sub %s %s %s)' % tuple(lst(x) for x in call[3])
     return '(OEval %s %s %s)' % (envt, 'None' if md is None else '(Some %d%%nat)' % md,
                                    'None' if s is None else '(Some %s)' % strl(s))
 
@@ -656,6 +734,10 @@ def view_term(o):
         return '(IPErr (EUnparse %s))' % strl(o[2])
     if k == 'nan':
         return '(INan %s %d%%nat)' % (namesl(*o[1]), o[2])
+    if k == 'ai':
+        return '(IAllowInf %s)' % view_term(o[1])
+    if k == 'inf':
+        return '(IInf %s %d%%nat)' % (namesl(*o[1]), o[2])
     if k == 'val':
         return '(IVal %s %s %d%%nat)' % ('None' if o[1] is None else '(Some %s)' % val_term(o[1]), namesl(*o[2]), o[3])
     if k == 'dims':
@@ -738,7 +820,7 @@ class Deferred(object):
         out = core.run_case_files([f for files, _ in jobs for f in files])
         # file names carry the pid (two checks of C10 may run at once); evaluated files are removed, failed ones kept
         for name, rc, txt in out:
-            if rc == 0:
+            if rc == 0 and not os.environ.get('C10_KEEP_CASES'):
                 try:
                     os.remove(os.path.join(core.CASES, name + '.v'))
                 except OSError:
@@ -756,12 +838,16 @@ DEFER = Deferred()
 # histories: generation, oracle, correspondence
 # =================================================================================================
 def show_call(c):
+    if c[0] == 'newparser':
+        return '<a new MathParser is installed as the shared parser>'
     if c[0] == 'consumer':
         return '%s(%r)' % (c[1], c[2])
     if c[0] == 'edit':
         return 'in-place edit of the reused %s dict: delete/add %r' % ({'v': 'variables', 'f': 'functions', 's': 'suffixes'}[c[1]], c[2])
     text = c[1] if c[1] is None or len(c[1]) < 120 else c[1][:40] + '...' + c[1][-8:]
     extra = '' if c[2] is None else ', max_array_dim=%d' % c[2]
+    if c[0] == 'evalI':
+        extra += ', allow_inf=True'
     if c[0] == 'evalS':
         extra += ', <the reused scope dicts>'
     if c[0] == 'evalC':
@@ -799,11 +885,20 @@ def check_histories(res, seqs, results, stats):
             if want == ('timeout',):
                 break
             if got != want:
+                steps = original_prefix(orig, o[4]) + ([call] if orig[o[4]][0] == 'consumer' and call[0] != 'consumer' else [])
+                conf = confirm_pristine(steps) if stats.get('confirmations', 0) < 40 else None
+                stats['confirmations'] = stats.get('confirmations', 0) + 1
+                if conf is None:
+                    # not reproducible from a pristine library state: something outside this history interfered (earlier
+                    # histories in the same worker); the perturb-then-probe stage looks for such leaks with their cause
+                    stats['mismatches_not_confirmed_in_pristine_state'] = stats.get('mismatches_not_confirmed_in_pristine_state', 0) + 1
+                    break
+                jj, ecall, cgot, cwant = conf
                 res.witnesses.append({
-                    'key': 'history:%s' % '|'.join(show_call(c) for c in original_prefix(orig, o[4])), 'kind': 'history',
-                    'calls': [list(c) for c in original_prefix(orig, o[4])] + ([list(call)] if orig[o[4]][0] == 'consumer' and call[0] != 'consumer' else []),
-                    'what': 'call #%d %s after this history gives %r; on a freshly constructed parser it gives %r'
-                            % (i + 1, show_call(call), got, want)})
+                    'key': 'history:%s' % '|'.join(show_call(c) for c in steps), 'kind': 'history',
+                    'calls': [list(c) for c in steps],
+                    'what': 'after this history %s gives %r; alone, on a new parser in a pristine library state, it gives %r'
+                            % (show_call(ecall), cgot, cwant)})
                 break
             stats['outcomes'][got[0] if got[0] != 'exc' else 'exc:' + got[1]] += 1
         if changed is not None:
@@ -1341,6 +1436,8 @@ def random_histories(ctx, res, rng, stats, rendered):
     seqs = []
     for _ in range(n):
         pool = [rng.choice(base) for _ in range(rng.randint(2, 5))]
+        if rng.random() < 0.25:
+            pool.append(rng.choice(['1e400', '1e308*100', '[1, 1e308*100]', '2^2000', '1e308*100+x', '-1e400', '1e400k']))
         shallow = [q for q in pool if len(q) < 200] or ['x']
         pool += [mutate(rng, rng.choice(shallow)) for _ in range(rng.randint(1, 3))]
         pool += [p.replace(' ', '') if rng.random() < 0.5 else ' ' + p.replace('+', ' + ') for p in pool[:2]]
@@ -1358,8 +1455,10 @@ def random_histories(ctx, res, rng, stats, rendered):
             k = rng.random()
             if k < 0.5:
                 sq.append(('parse', s, None))
-            elif k < 0.9:
+            elif k < 0.82:
                 sq.append(('eval', s, None))
+            elif k < 0.9:
+                sq.append(('evalI', s, None))
             elif k < 0.97:
                 sq.append(('eval', s, rng.choice([0, 1])))
             else:
@@ -1373,7 +1472,7 @@ def random_histories(ctx, res, rng, stats, rendered):
                 sq.insert(rng.randrange(1, len(sq) + 1), ('edit', which, nm))
         seqs.append(sq)
     results = run_many(seqs)
-    seqs, results = drop_unobserved(seqs, results, stats)
+    seqs, results = drop_unobserved(seqs, results, stats, share=0.15)
     check_histories(res, seqs, results, stats)
     def on_codes(codes, errors):
         res.corr_errors += errors
@@ -1450,6 +1549,91 @@ def consumers(ctx, res, rng, stats, rendered_with_names):
 
 
 # =================================================================================================
+# perturb-then-probe: state that leaks between histories (outside the parser object: module level, class level, the process)
+# =================================================================================================
+def _probe_worker(job):
+    perturbers, probes = job
+    purge('full')
+    for sq in perturbers:
+        run_sequence(sq)
+    outs = []
+    for c in probes:
+        out, _chg = run_sequence([c])
+        outs.append(out[0][1] if out else ('timeout',))
+    return outs
+
+
+def probe_jobs(jobs):
+    try:
+        ctx = multiprocessing.get_context('fork')
+        with ctx.Pool(min(core.NPROC, max(1, len(jobs)))) as pool:
+            return pool.map(_probe_worker, jobs)
+    except (OSError, ValueError):
+        return None
+
+
+def differs(got, want):
+    if ('timeout',) in (got, want):
+        return False
+    if (got[:2] == ('exc', 'RecursionError')) != (want[:2] == ('exc', 'RecursionError')):
+        return False
+    return got != want
+
+
+def perturb_then_probe(ctx, res, rng, stats, pool_seqs):
+    """Each job starts from a pristine library state, runs a varied batch of the histories generated above (every one on its own
+    new parser), then runs every probe call on yet another new parser.  A probe whose outcome differs from its pristine
+    reference has been influenced by something the batch left behind outside the parser; the batch is then bisected down to
+    the histories that cause it, and the resulting single history (perturbers, a new parser, the probe) is confirmed from a
+    pristine state before it is reported."""
+    probes = alphabet_calls() + list(EXTRA_CALLS) + [('consumer', cid, inp) for cid in sorted(CONSUMERS) for inp in CONSUMERS[cid][1]]
+    prefetch_fresh(probes)
+    nb, size = (6, 40) if ctx['tier'] == 'quick' and not ctx['escalate'] else (16, 60)
+    if not pool_seqs:
+        return
+    batches = [[rng.choice(pool_seqs) for _ in range(size)] for _ in range(nb)]
+    outs = probe_jobs([(b, probes) for b in batches])
+    if outs is None:
+        stats['perturb_then_probe'] = 'worker pool unavailable'
+        return
+    stats['perturb_then_probe'] = {'batches': nb, 'histories_per_batch': size, 'probes': len(probes)}
+    reported = 0
+    seen_probes = set()
+    for b, o in zip(batches, outs):
+        for c, got in zip(probes, o):
+            res.oracle_evals += 1
+            if not differs(got, fresh_outcome(c)) or c in seen_probes or reported >= 3:
+                continue
+            seen_probes.add(c)
+            cur = list(b)
+            while len(cur) > 1:
+                h1, h2 = cur[:len(cur) // 2], cur[len(cur) // 2:]
+                r = probe_jobs([(h1, [c]), (h2, [c])])
+                if r is None:
+                    break
+                if differs(r[0][0], fresh_outcome(c)):
+                    cur = h1
+                elif differs(r[1][0], fresh_outcome(c)):
+                    cur = h2
+                else:
+                    break               # needs histories from both halves: keep what we have
+            steps = []
+            for sq in cur:
+                steps += list(sq) + [('newparser',)]
+            steps.append(c)
+            conf = confirm_pristine(steps)
+            if conf is None:
+                stats['mismatches_not_confirmed_in_pristine_state'] = stats.get('mismatches_not_confirmed_in_pristine_state', 0) + 1
+                continue
+            jj, ecall, cgot, cwant = conf
+            reported += 1
+            res.witnesses.append({
+                'key': 'leak:%s' % show_call(c), 'kind': 'history', 'calls': [list(x) for x in steps],
+                'what': 'after %s -- and although a new MathParser was installed afterwards -- %s gives %r; alone, in a pristine '
+                        'library state, it gives %r' % ([show_call(x) for x in steps[:-2]], show_call(ecall), cgot, cwant)})
+
+
+# =================================================================================================
 def run(ctx):
     import collections
     res = core.Result()
@@ -1461,9 +1645,13 @@ def run(ctx):
     NFILES[0] = 16 if ctx['tier'] == 'thorough' else 8
     saved = impl()['ex'].PARSER
     try:
+        pool_seqs = []
         histories(ctx, res, rng, stats)
+        pool_seqs += [list(sq) for sq in ORIG if len(sq) >= 2]
         rendered = names_stream(ctx, res, rng, stats)
         random_histories(ctx, res, rng, stats, rendered)
+        pool_seqs += [list(sq) for sq in ORIG]
+        perturb_then_probe(ctx, res, random.Random(31 * ctx['seed'] + 7), stats, pool_seqs)
     finally:
         impl()['ex'].PARSER = saved
     DEFER.flush()
@@ -1487,6 +1675,7 @@ def run(ctx):
                             ('; all %d^4 string quadruples with a drawn pattern each' % len(ALPHABET) if ctx['tier'] == 'thorough' else ''),
         'sequences_not_observed_within_300s': stats.get('sequences_not_observed_within_300s', 0),
         'sequences_near_the_recursion_limit_dropped': stats.get('sequences_near_the_recursion_limit_dropped', 0),
+        'mismatches_not_confirmed_in_pristine_state': stats.get('mismatches_not_confirmed_in_pristine_state', 0),
         'alphabet': [a if len(a) < 60 else a[:14] + '...(%d levels)...' % NEST + a[-4:] for a in ALPHABET], 'calls_in_alphabet': len(alphabet_calls()) + len(EXTRA_CALLS),
         'random_sequences': stats.get('random_sequences'), 'random_calls': stats.get('random_calls'),
         'outcome_kinds': dict(stats['outcomes']),
@@ -1497,6 +1686,7 @@ def run(ctx):
         'histories_reusing_scope_dicts_with_in_place_edits': stats.get('scope_edit_sequences'),
         'histories_interleaving_consumers_with_recheck': stats.get('consumer_sequences'),
         'consumers': sorted(CONSUMERS),
+        'perturb_then_probe': stats.get('perturb_then_probe'),
         'sequences_where_the_model_declines_a_value': stats.get('model_declined_sequences', 0),
     }
     return res
@@ -1511,6 +1701,13 @@ def replay(w):
         if kind in ('history', 'handed-out'):
             calls = [tuple(tuple(tuple(y) if isinstance(y, list) else y for y in x) if isinstance(x, list) else x for x in c)
                      for c in w['calls']]
+            if kind == 'history' and not w.get('twin'):
+                conf = confirm_pristine(calls)
+                if conf is None:
+                    return False, 'every call of %s gives what it gives alone on a new parser in a pristine library state' % (
+                        [show_call(c) for c in calls],)
+                return True, 'during %s: %s gives %r; alone, on a new parser in a pristine library state, it gives %r' % (
+                    [show_call(c) for c in calls], show_call(conf[1]), conf[2], conf[3])
             out, changed = run_sequence(calls)
             if kind == 'handed-out':
                 return changed is not None, 'objects handed out during %s: %s' % (
